@@ -131,7 +131,7 @@ func main() {
 			"hang = 20 s CPU or 60 s wall (150 s / 300 s for inputs above 4 KiB) inside one call",
 			"goroutines left behind by a Parse that stopped early (F12a, property C12) are not judged here; enumerating processes are recycled above 150 000 goroutines or 50 000 cases",
 		},
-		QuickBudget:      80 * time.Second,
+		QuickBudget:      120 * time.Second,
 		ThoroughBudget:   23 * time.Minute,
 		Run:              run,
 		Replay:           replay,
